@@ -9,7 +9,7 @@
    operation in Q, with ONE exception: the comparison `duration >= averageDuration*1.1`
    depends on float64 rounding when the two sides are equal as rationals, so it is an oracle
    [fge] (Section variable) whose assumed behaviour away from ties is [fge_ok]. *)
-From Coq Require Import List ZArith QArith Bool.
+From Coq Require Import List ZArith QArith Bool Sorted.
 Import ListNotations.
 Open Scope Z_scope.
 
@@ -232,3 +232,43 @@ Section Doc.
   Definition doc_rate (w : list sample) (rs re range_ms : Z) : option Q :=
     option_map (fun x => (x / ms range_ms)%Q) (doc_change true w rs re).
 End Doc.
+
+(* ---- vocabulary of the theorems ---- *)
+(* adjacent pairs (prev, cur) of a non-empty window first :: rest *)
+Fixpoint adjacent (prev : sample) (rest : list sample) : list (sample * sample) :=
+  match rest with
+  | [] => []
+  | cur :: tl => (prev, cur) :: adjacent cur tl
+  end.
+Definition lt_T (a b : sample) : Prop := sT a < sT b.
+(* the float samples of a range: strictly increasing timestamps inside (rs, re] *)
+Definition valid_window (w : list sample) (rs re : Z) : Prop :=
+  Sorted.StronglySorted lt_T w /\ Forall (fun s => rs < sT s <= re) w.
+Definition nonneg (w : list sample) : Prop := Forall (fun s => (0 <= sV s)%Q) w.
+(* equality of optional rationals up to Qeq *)
+Definition oeq (a b : option Q) : Prop :=
+  match a, b with
+  | None, None => True
+  | Some x, Some y => (x == y)%Q
+  | _, _ => False
+  end.
+
+(* the pieces of [doc_change] on the path without a usable start timestamp, named so that
+   the bounds on the extrapolation can be stated *)
+Definition doc_inc (is_counter : bool) (first : sample) (rest : list sample) : Q :=
+  if is_counter then Qsum (increments first rest) else (sV (last rest first) - sV first)%Q.
+Definition doc_left (fge : Z -> Z -> Z -> bool) (is_counter : bool) (first : sample)
+           (rest : list sample) (rs : Z) : Q :=
+  let lst := last rest first in
+  let n := Z.of_nat (length rest) in
+  let S := sT lst - sT first in
+  let inc := doc_inc is_counter first rest in
+  let left0 := extend fge (sT first - rs) S n in
+  if is_counter && Qltb 0 inc && Qle_bool 0 (sV first)
+  then Qminq left0 (ms S * sV first / inc)%Q else left0.
+Definition doc_right (fge : Z -> Z -> Z -> bool) (first : sample) (rest : list sample) (re : Z) : Q :=
+  let lst := last rest first in
+  extend fge (re - sT lst) (sT lst - sT first) (Z.of_nat (length rest)).
+(* does the start timestamp of the first sample replace the extrapolation to the left? *)
+Definition st_path (is_counter : bool) (first : sample) (rs : Z) : bool :=
+  is_counter && negb (sST first =? 0) && (rs <? sST first) && (sST first <? sT first).
